@@ -47,7 +47,7 @@ theorem mapGet_of_nodup {β : Type} : ∀ (m : List (Str × β)) (k : Str) (v : 
     simp only [mapGet]
     rcases List.mem_cons.1 h with h | h
     · cases h
-      have : mapGet rest k = none := by
+      have : mapGet rest k' = none := by
         rw [mapGet_none_iff]
         intro e he hek
         exact hnd.1 (hek ▸ List.mem_map_of_mem he)
@@ -103,7 +103,7 @@ theorem loop_short (m : List (Str × Str)) (out : Str) (s : Str) (hs : Ascii s) 
     have h1 : a.utf8Size = 1 := Char.utf8Size_eq_one_iff.2 (hs a (by simp))
     have h2 : b.utf8Size = 1 := Char.utf8Size_eq_one_iff.2 (hs b (by simp))
     simp [translateLoop, step, byteLen, h1, h2]
-  | _ :: _ :: _ :: _, h => by simp at h; omega
+  | _ :: _ :: _ :: _, h => simp at h; omega
 
 theorem loop_chunks (m : List (Str × Str)) : ∀ (s : Str) (out : Str), Ascii s →
     (translateLoop m ([], out) s).2 = out ++ (chunks3 s).flatMap fun c => mapGetStr m (upper c)
@@ -144,8 +144,8 @@ theorem chunks3_length : ∀ (s : Str), (chunks3 s).length = s.length / 3
   | a :: b :: c :: rest => by
     simp only [chunks3, List.length_cons, chunks3_length rest]; omega
   | [] => rfl
-  | [_] => rfl
-  | [_, _] => rfl
+  | [_] => by simp [chunks3]
+  | [_, _] => by simp [chunks3]
 
 theorem chunks3_mem_length : ∀ (s : Str), ∀ c ∈ chunks3 s, c.length = 3
   | a :: b :: c :: rest, x, hx => by
